@@ -234,28 +234,6 @@ mkfix('parser-parenthesised-assignment-target', 'homescript/parser/expression.go
 """)],
  "parser: `(a) = b`, `(a.m) += 1`, `((a[0])) = 1` are rejected with 'Invalid left-hand side of assignment' because the target check looks at the GroupedExpression node; unwrap redundant parentheses before the check (the assignment node then carries the inner target, exactly as for `a = b`) (C07 LAYOUT:parentheses:rejected around:assignment-target)")
 
-mkfix('analyzer-import-graph-cycle-not-through-start', 'homescript/analyzer/importGraph.go', [
-("""		if node == originalStart {
-			return append(path, node), true
-		}
-""","""		if node == originalStart {
-			return append(path, node), true
-		}
-		// a cycle that does not contain `originalStart` (it is reported when its own modules
-		// are analyzed): do not walk around it forever
-		onPath := false
-		for _, visited := range path {
-			if visited == node {
-				onPath = true
-				break
-			}
-		}
-		if onPath {
-			continue
-		}
-""")],
- "analyzer: importGraphIsCyclicInner only stops at the start module, so any import cycle that does not contain the module being analysed (a module importing itself, a<->b below main, a corpus file served under its own name) recurses until the stack is exhausted and kills the host; skip modules already on the current path (C05 FATAL:stack-exhausted:analyzer.Analyzer.importGraphIsCyclicInner)")
-
 mkfix('analyzer-match-default-arm-analysed-once', 'homescript/analyzer/expression.go', [
 ("""				defaultArmSpan = &arm.Range
 				action := self.expression(arm.Action)
